@@ -849,6 +849,28 @@ func (e *Env) trCall(n *ECall) Val {
 		}
 		h := u.arrHeap(st.Elem())
 		return Val{T: app("slice_seq", sel(u.heapCur(e.cur, h), app("sl_base", a.T)), app("sl_off", a.T), app("sl_len", a.T)), S: "RSeq"}
+	case "cell": // current content of the memory cell of an address-taken variable (e.g. a parameter captured by a closure)
+		id, ok := n.Args[0].(*EIdent)
+		fr := e.fr
+		if fr == nil {
+			fr = e.tpFrame
+		}
+		if !ok || fr == nil {
+			e.fail("cell(name) needs a variable name inside a function")
+		}
+		for _, b := range fr.fn.Blocks {
+			for _, in := range b.Instrs {
+				if al, ok := in.(*ssa.Alloc); ok && al.Comment == id.Name {
+					if v, have := fr.vals[al]; have {
+						if v.Ty == nil {
+							v.Ty = al.Type()
+						}
+						return u.load(e.cur, v, al.Type().Underlying().(*types.Pointer).Elem())
+					}
+				}
+			}
+		}
+		e.fail("cell(%s): no address-taken variable of that name", id.Name)
 	case "elems": // the set of elements of a slice
 		a := e.tr(n.Args[0])
 		st, ok := a.Ty.Underlying().(*types.Slice)
@@ -931,12 +953,12 @@ func (e *Env) trCall(n *ECall) Val {
 		g := "$called:" + s.V
 		u.regHeap(g, "Bool")
 		return Val{T: u.heapCur(e.cur, g), S: "Bool", Ty: boolT}
-	case "ret", "ret1", "ret2", "first":
+	case "ret", "ret1", "ret2", "ret3", "first":
 		s, ok := n.Args[0].(*EStr)
 		if !ok {
 			e.fail("ret(\"pattern\")")
 		}
-		k := map[string]int{"ret": 0, "ret1": 1, "ret2": 2, "first": 0}[n.Fn]
+		k := map[string]int{"ret": 0, "ret1": 1, "ret2": 2, "ret3": 3, "first": 0}[n.Fn]
 		g := fmt.Sprintf("$ret:%s:%d", s.V, k)
 		if n.Fn == "first" {
 			g = fmt.Sprintf("$first:%s:0", s.V)
